@@ -562,8 +562,16 @@ class Gen(object):
         if code_ok and r.random() < 0.2:
             # gettext calls in template code: extracted by extract_from_code, looked up through the
             # functions the harness puts into the template data
-            if r.random() < 0.7:
+            q = r.random()
+            if q < 0.6:
                 return ['x', "_('%s')" % r.choice(WORDS[:14])]
+            if q < 0.7:
+                # a gettext call nested in the argument of another one (extract_from_code as repaired:
+                # the arguments of a gettext call are searched as well)
+                return ['x', "ngettext('%s', '%s', len(_('%s')))" % (r.choice(WORDS[:14]), r.choice(WORDS[:14]), r.choice(WORDS[:14]))]
+            if q < 0.78:
+                # a literal numeral (extract_from_code as repaired: a non-string literal is no string)
+                return ['x', "ngettext('%s', '%s', %s)" % (r.choice(WORDS[:14]), r.choice(WORDS[:14]), r.choice(['1', '2']))]
             return ['x', "ngettext('%s', '%s', %s)" % (r.choice(WORDS[:14]), r.choice(WORDS[:14]), r.choice(NUM_VARS))]
         return ['x', self.svar()]
 
@@ -832,6 +840,152 @@ class Gen(object):
     def case(self, depth=2):
         tree = self.blocks(depth)
         return {'tmpl': tree, 'data': self.data(), 'cfg': self.config, 'xhtml': self.rng.random() < 0.15}
+
+
+class Rare(Gen):
+    """templates aimed at the model branches the main generator rarely or never reaches
+    (measured: `br:` counters in the evidence): several i18n directives on one element (the loops
+    of `Translator.__call__` / `extract` that edit the directive list under their iterator), message
+    directives next to i18n:ctxt / i18n:domain / i18n:comment (contextify: pgettext / npgettext),
+    odd message and choose bodies (empty, one event, surplus expressions, directives on branches,
+    events between branches), message directives inside excluded elements.  Correspondence only:
+    many of these lie outside the hypotheses of the oracle (recorded findings, undocumented usage)."""
+
+    def i18n_combo(self):
+        r = self.rng
+        ds = []
+        if r.random() < 0.5:
+            ds.append(['i18n:domain', r.choice(DOMAINS)])
+        if r.random() < 0.6:
+            ds.append(['i18n:comment', self.words()])
+        if r.random() < 0.6:
+            ds.append(['i18n:ctxt', r.choice(CONTEXTS)])
+        if not ds:
+            ds.append(['i18n:ctxt', r.choice(CONTEXTS)])
+        return ds
+
+    def finish_dirs(self, ds):
+        r = self.rng
+        ds = list(ds)
+        k = r.random()
+        if k < 0.35:
+            ds.append(r.choice([['py:if', r.choice(BOOL_VARS)], ['py:strip', ''], ['py:for', 'it in l1']]))
+        elif k < 0.45:
+            ds.append(['py:if', r.choice(BOOL_VARS)])
+            ds.append(['py:strip', ''])
+        r.shuffle(ds)                  # attribute order in the source does not matter: the engine sorts
+        return ds
+
+    def rare_msg(self):
+        r = self.rng
+        params = []
+        q = r.random()
+        if q < 0.2:
+            kids = []
+        elif q < 0.3:
+            kids = [self.text()] if r.random() < 0.6 else [['x', self.svar()]]
+            if kids[0][0] == 'x':
+                params.append('p1')
+        else:
+            kids = self.inline(2, True, params)
+            kids = self.edges(kids, must=False)
+        k = r.random()
+        if k < 0.25 and params:
+            params = params[:-1]                          # more expressions than parameters
+        elif k < 0.2:
+            params = params + ['extra']
+        value = ', '.join(params)
+        form = r.random()
+        if form < 0.7:
+            ds = self.finish_dirs((self.i18n_combo() if r.random() < 0.75 else []) + [['i18n:msg', value]])
+            tag = r.choice([t for t in TAGS if t not in self.config['ignore_tags']])
+            return ['e', tag, self.attrs(lang_ok=r.random() < 0.2), ds, kids]
+        node = ['d', 'i18n:msg', [['params', value]], kids]
+        if r.random() < 0.5:
+            return ['e', r.choice(['div', 'p']), self.attrs(), self.finish_dirs(self.i18n_combo()), [self.text(), node]]
+        return node
+
+    def rare_choose(self):
+        r = self.rng
+        nv = r.choice(NUM_VARS)
+        params = []
+        sing = self.edges(self.inline(1, True, params, dirs_ok=r.random() < 0.3), must=True)
+        p2 = []
+        plur = self.edges(self.inline(1, True, p2, dirs_ok=r.random() < 0.3, maxparams=max(len(params), 1)), must=True)
+        if len(p2) > len(params):
+            params = p2
+        tag = r.choice(['p', 'span', 'li'])
+
+        def branch(name, content):
+            q = r.random()
+            if q < 0.25:
+                return ['d', name, [], content]
+            ds = [[name, '']]
+            if q < 0.5:
+                ds.append(['py:if', r.choice(BOOL_VARS)])
+            elif q < 0.65:
+                ds.append(['py:strip', ''])
+            elif q < 0.75:
+                ds.append(['i18n:comment', self.words()])
+            r.shuffle(ds)
+            return ['e', tag, self.attrs(lang_ok=False), ds, content]
+        ws = lambda: ['t', r.choice(['\n', ' ', '\n  '])]
+        between = r.random()
+        mid = [ws()]
+        if between < 0.2:
+            mid = [['t', ' ' + self.words() + ' ']]
+        elif between < 0.4:
+            mid = [ws(), ['e', 'b', self.attrs(), [['py:if', r.choice(BOOL_VARS)]], [self.text()]], ws()]
+        elif between < 0.5:
+            mid = [['c', ' note '], ws()]
+        elif between < 0.6:
+            mid = []
+        bs, bp = branch('i18n:singular', sing), branch('i18n:plural', plur)
+        shape = r.random()
+        if shape < 0.1:
+            inner = [ws(), bs, ws()]
+        elif shape < 0.2:
+            inner = [ws(), bp, ws()]
+        elif shape < 0.3:
+            inner = [ws(), bp] + mid + [bs, ws()]
+        elif shape < 0.4:
+            inner = [bs] + mid + [bp]
+        else:
+            inner = [ws(), bs] + mid + [bp, ws()]
+        pv = ', '.join(params)
+        if r.random() < 0.75:
+            ds = self.finish_dirs((self.i18n_combo() if r.random() < 0.7 else []) + [['i18n:choose', '%s; %s' % (nv, pv) if params else nv]])
+            return ['e', r.choice(['div', 'p', 'ul']), self.attrs(lang_ok=r.random() < 0.2), ds, inner]
+        node = ['d', 'i18n:choose', [['numeral', nv], ['params', pv]], inner]
+        if r.random() < 0.5:
+            return ['e', 'div', self.attrs(), self.finish_dirs(self.i18n_combo()), [node]]
+        return node
+
+    def rare_plain(self):
+        r = self.rng
+        tag, attrs, ex = self.plain_elem(1, False)
+        kids = self.blocks(1, ex)
+        if r.random() < 0.4:
+            kids.append(self.rare_msg() if r.random() < 0.6 else self.rare_choose())    # also inside excluded elements
+        return ['e', tag, attrs, self.finish_dirs(self.i18n_combo()), kids]
+
+    def case(self, depth=2):
+        r = self.rng
+        tree = []
+        for _ in range(r.choice([1, 2, 2, 3])):
+            q = r.random()
+            tree.append(self.rare_msg() if q < 0.4 else self.rare_choose() if q < 0.7 else self.rare_plain())
+            if r.random() < 0.5:
+                tree.append(self.text())
+        if r.random() < 0.3:
+            tree = [['e', r.choice(IGNORED + ['div']), self.attrs(), [], tree]]
+        return {'tmpl': tree, 'data': self.data(), 'cfg': self.config, 'xhtml': r.random() < 0.1}
+
+
+def gen_rare_case(rng):
+    # `attrws`: included attribute values with white space at their edges (finding C19-attr-space
+    # keeps them away from the oracle; model and code must still agree on them)
+    return Rare(rng, ('attrws',) if rng.random() < 0.5 else (), nofrag=rng.random() < 0.5).case()
 
 
 def gen_case(rng, hazards=(), depth=2, nofrag=False):
